@@ -21,32 +21,32 @@ theorem go_latestEpoch (c : Epochs) :
     run prog noExt 20 "latestEpoch" (some (encCache c)) [] =
       .ok { rets := [.int c.latestEpoch], recv := some (encCache c), eff := [] } := by
   rcases List.eq_nil_or_concat c with rfl | ⟨c', e, rfl⟩
-  · simp [run, fn_leaderEpochCache_latestEpoch, gomini, encCache, binInt, Epochs.latestEpoch]
+  · simp [run, runG, fn_leaderEpochCache_latestEpoch, gomini, encCache, binInt, Epochs.latestEpoch]
   · rw [List.concat_eq_append]
-    simp [run, fn_leaderEpochCache_latestEpoch, gomini, encCache, binInt, Epochs.latestEpoch, encEpoch]
+    simp [run, runG, fn_leaderEpochCache_latestEpoch, gomini, encCache, binInt, Epochs.latestEpoch, encEpoch]
 
 theorem go_latestOffset (c : Epochs) :
     run prog noExt 20 "latestOffset" (some (encCache c)) [] =
       .ok { rets := [.int c.latestOffset], recv := some (encCache c), eff := [] } := by
   rcases List.eq_nil_or_concat c with rfl | ⟨c', e, rfl⟩
-  · simp [run, fn_leaderEpochCache_latestOffset, gomini, encCache, binInt, Epochs.latestOffset]
+  · simp [run, runG, fn_leaderEpochCache_latestOffset, gomini, encCache, binInt, Epochs.latestOffset]
   · rw [List.concat_eq_append]
-    simp [run, fn_leaderEpochCache_latestOffset, gomini, encCache, binInt, Epochs.latestOffset, encEpoch]
+    simp [run, runG, fn_leaderEpochCache_latestOffset, gomini, encCache, binInt, Epochs.latestOffset, encEpoch]
 
 theorem go_earliestOffset (c : Epochs) :
     run prog noExt 20 "earliestOffset" (some (encCache c)) [] =
       .ok { rets := [.int c.earliestOffset], recv := some (encCache c), eff := [] } := by
   cases c with
-  | nil => simp [run, fn_leaderEpochCache_earliestOffset, gomini, encCache, binInt, Epochs.earliestOffset]
-  | cons e c' => simp [run, fn_leaderEpochCache_earliestOffset, gomini, encCache, binInt, Epochs.earliestOffset, encEpoch]
+  | nil => simp [run, runG, fn_leaderEpochCache_earliestOffset, gomini, encCache, binInt, Epochs.earliestOffset]
+  | cons e c' => simp [run, runG, fn_leaderEpochCache_earliestOffset, gomini, encCache, binInt, Epochs.earliestOffset, encEpoch]
 
 theorem go_LastLeaderEpoch (c : Epochs) :
     run prog noExt 20 "LastLeaderEpoch" (some (encCache c)) [] =
       .ok { rets := [.int c.latestEpoch], recv := some (encCache c), eff := [] } := by
   rcases List.eq_nil_or_concat c with rfl | ⟨c', e, rfl⟩
-  · simp [run, fn_leaderEpochCache_LastLeaderEpoch, fn_leaderEpochCache_latestEpoch, gomini, encCache, binInt, Epochs.latestEpoch]
+  · simp [run, runG, fn_leaderEpochCache_LastLeaderEpoch, fn_leaderEpochCache_latestEpoch, gomini, encCache, binInt, Epochs.latestEpoch]
   · rw [List.concat_eq_append]
-    simp [run, fn_leaderEpochCache_LastLeaderEpoch, fn_leaderEpochCache_latestEpoch, gomini, encCache, binInt, Epochs.latestEpoch, encEpoch]
+    simp [run, runG, fn_leaderEpochCache_LastLeaderEpoch, fn_leaderEpochCache_latestEpoch, gomini, encCache, binInt, Epochs.latestEpoch, encEpoch]
 
 theorem assign_facts : Gen.Log.assignEpochCmp = .gt ∧ Gen.Log.assignOffsetCmp = .ge := by decide
 
@@ -58,10 +58,10 @@ theorem go_assign (c : Epochs) (epoch : Nat) (offset : Int) :
                    else [("warn", [.int epoch, .int c.latestEpoch, .int offset, .int c.latestOffset])] } := by
   rcases List.eq_nil_or_concat c with rfl | ⟨c', e, rfl⟩
   · by_cases h1 : 0 < epoch <;> by_cases h2 : -1 ≤ offset <;>
-    simp [run, fn_leaderEpochCache_assign, fn_leaderEpochCache_latestEpoch, fn_leaderEpochCache_latestOffset, gomini, encCache, binInt,
+    simp [run, runG, fn_leaderEpochCache_assign, fn_leaderEpochCache_latestEpoch, fn_leaderEpochCache_latestOffset, gomini, encCache, binInt,
       Epochs.latestEpoch, Epochs.latestOffset, Epochs.assign, encEpoch, assign_facts, Cmp.evalNat, Cmp.evalInt, builtin, h1, h2]
   · by_cases h1 : e.1 < epoch <;> by_cases h2 : e.2 ≤ offset <;>
-    simp [run, fn_leaderEpochCache_assign, fn_leaderEpochCache_latestEpoch, fn_leaderEpochCache_latestOffset, gomini, encCache, binInt,
+    simp [run, runG, fn_leaderEpochCache_assign, fn_leaderEpochCache_latestEpoch, fn_leaderEpochCache_latestOffset, gomini, encCache, binInt,
       Epochs.latestEpoch, Epochs.latestOffset, Epochs.assign, encEpoch, assign_facts, Cmp.evalNat, Cmp.evalInt, builtin, List.concat_eq_append, h1, h2]
 
 /-- `ClearLatest`: nothing when the offset lies beyond the newest entry, else the model's filter and one flush. -/
@@ -71,9 +71,9 @@ theorem go_ClearLatest (c : Epochs) (offset : Int) :
             eff := if offset > c.latestOffset then [] else [("flush", [])] } := by
   by_cases h : offset > c.latestOffset
   · have h' : c.latestOffset < offset := h
-    simp [run, fn_leaderEpochCache_ClearLatest, gomini, builtin, latestOffset_body, binInt, h, h', Epochs.clearLatest, clearLatest_facts, Cmp.evalInt]
+    simp [run, runG, fn_leaderEpochCache_ClearLatest, gomini, builtin, latestOffset_body, binInt, h, h', Epochs.clearLatest, clearLatest_facts, Cmp.evalInt]
   · have hl := clearLatest_loop 13 offset c [] 0
-    simp [run, fn_leaderEpochCache_ClearLatest, gomini, builtin, latestOffset_body, binInt, h]
+    simp [run, runG, fn_leaderEpochCache_ClearLatest, gomini, builtin, latestOffset_body, binInt, h]
     simp [encCache, gomini]
     rw [hl _ (by simp [gomini]) (by simp [gomini])]
     simp [gomini, clSt_filtered, clSt_frame, clSt_eff, binInt]
